@@ -51,7 +51,14 @@ Definition out_edges (s : state) (x : obj) : list obj :=
         match n_kind nd with
         | KConst _ => []
         | KVar v => [OVar v]
-        | KMap _ cs => ONode <$> cs
+        | KMap f cs =>
+            (* the map_cyclic closure of a per-key operator owns the user's function and what it captured *)
+            (ONode <$> cs)
+            ++ (ONode <$> concat ((fun e => match e with
+                                            | EPerKeyStep pk => match perkeys s !! pk with
+                                                                | Some r => captured_bindfn (pk_fn r)
+                                                                | None => [] end
+                                            | _ => [] end) <$> c_effs f))
         | KMapRef _ c => [ONode c]
         | KMapWithOld _ c => [ONode c]
         | KFold _ _ cs => ONode <$> cs
